@@ -118,6 +118,9 @@ def check_split(case) -> Result:
             res.bad('C12/split/outcome-differs', f'split execution raised {ea!r}, single run raised {eb!r}')
         res.classes += ('run-raised',)
         res.run_error = ea or eb
+        from vp.simprops import by_design
+        if type(ea) is type(eb) and not by_design(ea or eb):
+            res.bad(f'C12/split/run-raises/{type(ea or eb).__name__}', f'both executions raised {ea!r}')
         return res
     a, b = ta[-1], tb[-1]
     if not (I.complete(a) and I.complete(b) and I.finite_trace(a) and I.finite_trace(b)):
